@@ -78,6 +78,13 @@ def replay(pid, rp):
             print("specification :", json.dumps(exp)[:3000])
             for pids, what in compare_attr(case, obs, exp)[0]:
                 print("MUST mismatch", pids, what[:500])
+    elif kind == "attr_oversize":
+        cp, op = os.path.join(wd, "over.cases"), os.path.join(wd, "over.obs")
+        with open(cp, "w") as f:
+            f.write(json.dumps(rp["case"]) + "\n")
+        run_harness(["attrs", cp, op])
+        print("RawAttribute::new(type %d, %d bytes) through the 19 typed decoders:" % (rp["case"]["type"], rp["case"]["len"]))
+        print("implementation:", json.dumps(read_ndjson(op)[0])[:3000])
     elif kind == "builder_path":
         print("operation sequence on a fresh request builder (method 1):", " ".join(rp["path"]))
         print("re-run: ./check %s  (the builder walk is exhaustive and deterministic; this path is part of it)" % pid)
@@ -769,8 +776,9 @@ def systematic_fp_mutants(g, rng):
 def c09(rep, tier, seed, wd):
     rng = random.Random(seed)
     nmsg = 14 if tier == "quick" else 150
-    gm = [g for g in gen_messages(400 if tier == "quick" else 4000, seed + 4, wd, maxattrs=3)
-          if g["gen"]["seal"] & 4 and len(g["bytes"]) <= (140 if tier == "quick" else 400)]
+    allfp = [g for g in gen_messages(400 if tier == "quick" else 4000, seed + 4, wd, maxattrs=3) if g["gen"]["seal"] & 4]
+    # (the builder side of the property is checked on every one of them, whatever its size; corruption on the small ones)
+    gm = [g for g in allfp if len(g["bytes"]) <= (140 if tier == "quick" else 400)]
     # builder-appended and externally computed fingerprints, with and without integrity attributes
     gm.sort(key=lambda g: (g["gen"]["by_ext"], g["gen"]["seal"]))
     pick = gm[::max(1, len(gm) // nmsg)][:nmsg]
@@ -780,6 +788,7 @@ def c09(rep, tier, seed, wd):
     crowded.sort(key=lambda g: len(g["bytes"]))
     crowded = crowded[:(2 if tier == "quick" else 10)]
     gm += [g for g in crowded if g not in gm]
+    gm += [g for g in allfp if g not in gm and len(g["bytes"]) <= 4000]
     base = [{"bytes": g["bytes"], "src": "fingerprinted message %d (%s, seal=%d)" % (g["id"], "external" if g["gen"]["by_ext"] else "builder", g["gen"]["seal"])} for g in gm]
     muts = []
     for g in pick:
@@ -1543,6 +1552,26 @@ def c01(rep, tier, seed, wd):
                     rep.note_foreign(p)
     # typed decoders and raw attribute paths on the C08 value sets (every length 0..800 etc.)
     acases, stats, per_type = attr_check("C01", rep, tier, seed, wd)
+    # values longer than a 16-bit length can say (RawAttribute::new holds them): every length that is one of the decoders'
+    # expected sizes modulo 2^16, through all 19 decoders (totality only - no encoding of such a value exists)
+    over = []
+    for ty in BUILTIN + [0x7f00]:
+        for n in sorted(set([65535, 65536, 70000, 131072 + 4] + [65536 + k for k in (1, 2, 3, 4, 5, 8, 12, 16, 20, 24, 28, 32, 36, 64, 513, 763)])):
+            pat = [0x61] if ty in TEXT_TYPES else ([0, 1, 0, 0] if ty in (29, 32770) else [0, 1, 4, 20] if ty in (32, 32803, 9) else [7])
+            over.append({"type": ty, "value": pat, "len": n, "tid": TID0, "src": "value of %d bytes" % n})
+    cp, op = os.path.join(wd, "over.cases"), os.path.join(wd, "over.obs")
+    with open(cp, "w") as f:
+        for c in over:
+            f.write(json.dumps(c) + "\n")
+    run_harness(["attrs", cp, op])
+    oobs = read_ndjson(op)
+    if len(oobs) != len(over):
+        raise ToolError("adapter answered %d of %d oversize attribute cases" % (len(oobs), len(over)))
+    for c, o in zip(over, oobs):
+        for path, msg in all_panics(o):
+            npanic += 1
+            rep.violation("attribute type %d, %s: panic at %s: %s" % (c["type"], c["src"], path, msg), {"kind": "attr_oversize", "case": c})
+    rep.add_cov(oversize_attribute_values=len(over))
     rep.add_cov(evaluations=len(allc) + len(acases), distinct_nontrivial=distinct(allc) + len({(c["type"], bytes(c["value"])) for c in acases}),
                 accepted_messages_inspected=accepted, boundary_cases=len(bnd), enumerated=len(cases), generated=len(gcs), mutants=len(muts),
                 attribute_values=len(acases), panics_seen=npanic, max_buffer_len=max(len(c["bytes"]) for c in allc),
